@@ -159,6 +159,12 @@ fn lock() -> MutexGuard<'static, State> {
     }
 }
 
+/// `VERIF_TRACE=1`: print every scheduling decision (debugging aid; reads the environment once)
+fn trace_on() -> bool {
+    static ON: std::sync::OnceLock<bool> = std::sync::OnceLock::new();
+    *ON.get_or_init(|| std::env::var_os("VERIF_TRACE").is_some())
+}
+
 fn me() -> usize {
     ME.try_with(|m| m.get()).unwrap_or(DEAD)
 }
@@ -314,6 +320,9 @@ fn pick(st: &mut MutexGuard<'static, State>, me_idx: usize, me_can_continue: boo
     }
     let nth = st.threads.get(me_idx).map_or(0, |t| t.yields);
     let step = st.step;
+    if trace_on() {
+        eprintln!("TRACE step={} me={} site={} cands={:?} epoch={} clock={}", step, me_idx, site, cands, EPOCH.load(Ordering::SeqCst), st.clock);
+    }
     let choice = if cands.len() == 1 {
         cands[0]
     } else {
